@@ -791,5 +791,13 @@ func (c *Client) Do(ctx context.Context, q Query) (err error) {
 		}
 		return nil
 	})
-	return g.Wait()
+	if err := g.Wait(); err != nil {
+		if gotException.Load() && !c.IsClosed() {
+			// Query was failed by server and connection is still usable:
+			// drop everything that was encoded for this query, but not sent.
+			c.writer.Reset()
+		}
+		return err
+	}
+	return nil
 }
